@@ -308,7 +308,7 @@ func VX_C19_BackendLoss(args []int) {
 		return c, nil
 	})
 	defer erpc.VXSetDialHook(nil)
-	cli := erpc.NewPeer(erpc.PeerConfig{RedialTimes: 2})
+	cli := erpc.NewPeer(erpc.PeerConfig{RedialTimes: 2, RedialInterval: vxRedialEvery})
 	bsess, st := cli.Dial("backend:1")
 	vxAssume(st.OK())
 	vxWaitIdle()
